@@ -106,6 +106,30 @@ def loop_bodies(src):
     return out
 
 
+def after_loop(src, loop_start):
+    """the text that follows the `loop { .. }` starting at `loop_start`, up to the end of the enclosing block"""
+    m = re.compile(r"\bloop\s*\{").match(src, loop_start)
+    i = m.end()
+    depth = 1
+    while i < len(src) and depth:
+        if src[i] == "{":
+            depth += 1
+        elif src[i] == "}":
+            depth -= 1
+        i += 1
+    j = i
+    depth = 0
+    while j < len(src):
+        if src[j] == "{":
+            depth += 1
+        elif src[j] == "}":
+            depth -= 1
+            if depth < 0:
+                break
+        j += 1
+    return src[i:j]
+
+
 def call_arg(body, pos):
     depth = 1
     i = pos
@@ -131,6 +155,7 @@ def relay_sites(rel, expected):
         if not re.search(r"\.\s*read\s*\(\s*&mut\s+buf\s*\)", body):
             continue
         calls = [(m.group(1), call_arg(body, m.end())) for m in HAND_OVER.finditer(body)]
+        sinks = [m.group(1) for m in re.finditer(r"(\w+)\s*\.\s*(?:write_all|write)\s*\(", body)]
         if len(calls) != 1:
             raise ExtractError(f"{rel}: relay loop at offset {start}: expected exactly one hand-over call, "
                                f"found {[c[0] for c in calls]}")
@@ -147,7 +172,16 @@ def relay_sites(rel, expected):
         # the count read must be the `n` of this iteration: `Ok(n) => n` / `let n = ...read(&mut buf)`
         if not re.search(r"Ok\(n\)\s*=>|let\s+n\s*=", body):
             raise ExtractError(f"{rel}: relay loop at offset {start}: the byte count of the read is not bound to `n`")
-        sites.append((rel, HAND_OVER_KIND[meth], sl))
+        # what the code does once the loop is over (the source ended or the sink failed): shut the sink down, send the
+        # stream's FIN, or nothing
+        tail = after_loop(src, start)
+        if sinks and re.search(r"\b" + re.escape(sinks[0]) + r"\s*\.\s*shutdown\s*\(\s*\)", tail):
+            end = "shutdownSink"
+        elif re.search(r"Command::Fin\b", tail):
+            end = "sendFin"
+        else:
+            end = "nothing"
+        sites.append((rel, HAND_OVER_KIND[meth], sl, end))
     if len(sites) != expected:
         raise ExtractError(f"{rel}: expected {expected} relay loops, found {len(sites)}")
     return sites
@@ -576,15 +610,23 @@ def render(g):
     a("  | other")
     a("  deriving DecidableEq, Repr")
     a("")
+    a("/-- what follows the loop, in the same task, once it is over -/")
+    a("inductive EndKind where")
+    a("  | shutdownSink   -- `<sink>.shutdown()`: the sink's peer sees end of stream")
+    a("  | sendFin        -- a FIN frame for the stream is written")
+    a("  | nothing")
+    a("  deriving DecidableEq, Repr")
+    a("")
     a("structure RelaySite where")
     a("  file : String")
     a("  write : WriteKind")
     a("  slice : SliceKind")
+    a("  atEnd : EndKind")
     a("  deriving DecidableEq, Repr")
     a("")
     a("/-- every `loop { n = source.read(&mut buf); sink.<hand-over>(<slice>) }` of the relay code, in source order -/")
     a("def relaySites : List RelaySite := [")
-    a(",\n".join(f"  ⟨{lean_str(f)}, .{w}, .{sl}⟩" for f, w, sl in g["relaySites"]))
+    a(",\n".join(f"  ⟨{lean_str(f)}, .{w}, .{sl}, .{e}⟩" for f, w, sl, e in g["relaySites"]))
     a("]")
     a("")
     a("inductive UdpDir where")
